@@ -497,7 +497,13 @@ class World:
                 if a[2] == 0:
                     it.throw("ValueError", "range() arg 3 must not be zero", n)
                 return RangeVal(a[0], a[1], a[2])
-            it.unsupported("range with symbolic step", n)
+            # symbolic step: zero is a ValueError (decided first), then the sign is split: +1 / -1 / other magnitudes
+            it.guard(mk_bool(zi(a[2]) != 0), "ValueError", n, "range() arg 3 must not be zero")
+            if it.path.branch(zi(a[2]) == 1):
+                return RangeVal(a[0], a[1], 1)
+            if it.path.branch(zi(a[2]) == -1):
+                return RangeVal(a[0], a[1], -1)
+            it.unsupported("range with a symbolic step other than 1 or -1", n)
 
         @reg("int")
         def _int(it, a, k, n):
